@@ -42,7 +42,7 @@ def plan(tier, seed):
 def mandatory_bins(tier):
     b = ["hash_" + h for h in HASHES] + ["enc_" + e for e in ENCODINGS]
     b += ["digest_longer_than_order", "key_scalar_1", "key_scalar_n-1", "lib_sig_verified_by_openssl", "openssl_sig_verified_by_lib", "rfc6979_compared", "message_bit_flips", "signature_bit_flips",
-          "other_key", "forged_r_0", "forged_s_0", "forged_r_n", "forged_s_n", "forged_r_n_plus_1", "forged_2^k", "malformed_truncated", "malformed_extended", "malformed_retagged", "der_long_form_length", "high_s_and_low_s", "verifying_key_with_precomputed_tables", "rfc6979_with_additional_data", "rfc6979_with_additional_data_and_rejected_first_candidate", "malformed_strings_components_resplit", "key_loaded_with_hashfunc_argument"]
+          "other_key", "forged_r_0", "forged_s_0", "forged_r_n", "forged_s_n", "forged_r_n_plus_1", "forged_2^k", "malformed_truncated", "malformed_extended", "malformed_retagged", "der_long_form_length", "high_s_and_low_s", "verifying_key_with_precomputed_tables", "rfc6979_with_additional_data", "rfc6979_with_additional_data_and_rejected_first_candidate", "malformed_strings_components_resplit", "key_loaded_with_hashfunc_argument", "digest_equal_to_the_order_or_next_to_it"]
     return b
 
 
@@ -130,6 +130,22 @@ def run_shard(spec, ctx):
                         ctx.note("precompute_on_key_loaded_from_string_works")
                     except Exception as e:
                         ctx.note("precompute_on_key_loaded_from_string_fails_with_" + type(e).__name__)
+            # digests whose leading bits are exactly the group order, one less, one more (the reduction step of RFC 6979)
+            if hi == 0 or hname == "sha256":
+                nb = (bits + 7) // 8
+                for delta in (0, -1, 1):
+                    dg = ((n + delta) << (8 * nb - bits)).to_bytes(nb, "big") if bits % 8 else (n + delta).to_bytes(nb, "big")
+                    ctx.ev()
+                    ctx.bin("digest_equal_to_the_order_or_next_to_it")
+                    try:
+                        sg = sk.sign_digest_deterministic(dg, hashfunc=hf, sigencode=ns.util.sigencode_string, allow_truncate=True)
+                        er_, es_, _ = RFC.sign(n, d, dg, hf, lambda k: ossl.point_mul(name, k)[0])
+                        if tuple(ns.util.sigdecode_string(sg, n)) != (er_, es_):
+                            ctx.violation("deterministic_signature_differs_from_rfc6979:digest_bits_equal_order%+d" % delta, {"hash": hname, "curve": cv.name}, dict(rp0, d=hex(d), hash=hname, digest=dg.hex()))
+                        elif vk.verify_digest(sg, dg, sigdecode=ns.util.sigdecode_string, allow_truncate=True) is not True:
+                            ctx.violation("library_rejects_its_own_signature:deterministic", {"digest": "order%+d" % delta}, dict(rp0, d=hex(d), hash=hname, digest=dg.hex()))
+                    except Exception as e:
+                        ctx.violation("sign_raises", {"exc": fmt_exc(e), "digest": "order%+d" % delta}, dict(rp0, d=hex(d), hash=hname, digest=dg.hex()))
             msg = rng.randbytes(16)
             digest = hf(msg).digest()
             # keys loaded from DER / PEM / string with a hashfunc argument: that hash is the default of the key (and of the public
